@@ -513,9 +513,9 @@ class C03(Check):
                 if i < k:
                     e = re.sub(r"\d+$", str(k - 1), emb)
             cands.append((n, e, pos, rest))
-        # smaller register
-        if n > 1 and all(q < n - 1 for g in seq for q in g[1]):
-            cands.append((n - 1, emb, pos, seq))
+        # embedded section first
+        if pos:
+            cands.append((n, emb, 0, seq))
         # simpler gate in place
         for i, g in enumerate(seq):
             for name in sorted(RANK, key=RANK.get):
@@ -534,9 +534,9 @@ class C03(Check):
                     if q2 not in g[1]:
                         qs = g[1][:j] + (q2,) + g[1][j + 1:]
                         cands.append((n, emb, pos, seq[:i] + ((g[0], qs, g[2]),) + seq[i + 1:]))
-        # embedded section first
-        if pos:
-            cands.append((n, emb, 0, seq))
+        # smaller register
+        if n > 1 and all(q < n - 1 for g in seq for q in g[1]):
+            cands.append((n - 1, emb, pos, seq))
         # first theta
         for i, g in enumerate(seq):
             for j, v in enumerate(g[2]):
@@ -666,7 +666,9 @@ class C03(Check):
         if not okE:
             fails.append(("state/" + fam, "subcircuit %d (%s): required %s, emulator %s; %s" % (
                 kE, " ; ".join(_gtxt(g) for g in GE) or "no gates", _fmt(refE), _fmt(gotE), chain_txt)))
-        if not okW:
+        if not okW and (fam == "plain" and pos == 0 and not GW or not self._plain_fails(n, GW)):
+            # only a finding of its own when the same witness passes as a program of its own
+            # (otherwise the plain case reports it)
             fails.append(("neighbour-state/" + fam, "plainly written subcircuit %d (%s) beside the embedded one: required %s, emulator %s" % (
                 1 - kE, " ; ".join(_gtxt(g) for g in GW) or "no gates", _fmt(refW), _fmt(gotW))))
         if okE and okW and not chain_ok:
@@ -693,34 +695,58 @@ class C03(Check):
         return fails
 
     def run_case(self, case, ctx):
-        n, emb, pos, seq = case
         fails = self.evaluate(case, ctx)
-        if not fails:
-            return
-        # name the narrowest single-gate case of the same embedding family that fails the same
-        # clause (keeps the number of distinct failing inputs, hence shrinking work, small)
+        # report each failed clause on the locally minimal case reached by a memoised greedy descent
+        # over shrink(): thousands of failing programs of one family then name the same few inputs
         for clause, detail in fails:
-            refined = None
-            if len(seq) > 1 or pos:
-                for g in sorted(set(seq), key=lambda g: (RANK[g[0]], g[1], g[2])):
-                    for e in embeddings((g,)):
-                        if family(e) != family(emb):
-                            continue
-                        cand = (n, e, 0, (g,))
-                        try:
-                            f2 = self.evaluate(cand)
-                        except AssertionError:
-                            continue
-                        d2 = [d for c, d in f2 if c == clause]
-                        if d2:
-                            refined = (cand, d2[0])
-                            break
-                    if refined:
-                        break
-            if refined:
-                ctx.fail(clause, refined[1], case=refined[0])
-            else:
-                ctx.fail(clause, detail)
+            kind, fam = clause.split("/")
+            if fam != "plain":
+                # not specific to the embedding when the plainly written program of the same executed
+                # gates fails the same way: then it is reported as the plain family's failure
+                pc = (case[0], "plain", 0, tuple(expected_expansion(case[1], case[3])))
+                if any(c == kind + "/plain" for c, _d in self._fails_of(pc)):
+                    clause, case = kind + "/plain", pc
+            small = self._minimise(clause, case)
+            if small != case:
+                detail = next(d for c, d in self._fails_of(small) if c == clause)
+            ctx.fail(clause, detail, case=small)
+
+    def _plain_fails(self, n, gate_list):
+        case = (n, "plain", 0, tuple(gate_list))
+        return any(c == "state/plain" for c, _d in self._fails_of(case))
+
+    _eval_memo = {}
+    _min_memo = {}
+
+    def _fails_of(self, case):
+        memo = self._eval_memo
+        if case not in memo:
+            if len(memo) > 200000:
+                memo.clear()
+            memo[case] = tuple(self.evaluate(case))
+        return memo[case]
+
+    def _minimise(self, clause, case):
+        memo = self._min_memo
+        path = []
+        cur = case
+        while True:
+            key = (clause, cur)
+            if key in memo:
+                cur = memo[key]
+                break
+            path.append(key)
+            nxt = None
+            for cand in self.shrink(cur):
+                if any(c == clause for c, _d in self._fails_of(cand)):
+                    nxt = cand
+                    break
+            if nxt is None:
+                break
+            cur = nxt
+        for key in path:
+            memo[key] = cur
+        return cur
 
 
 def _gtxt(g):
